@@ -48,6 +48,14 @@ def non_test(src):
 
 def inventory(src_dir=REPO_SRC):
     inv = {"structs": {}, "constructs": {}}
+    if src_dir == REPO_SRC:
+        # the integer literals of the code: not compared (a rewrite may use any constant), only used as
+        # the baseline against which litdir.py finds the literals that are new
+        try:
+            from . import litdir
+        except ImportError:
+            import litdir
+        inv["literals"] = sorted(litdir.harvest(src_dir))
     for fn in sorted(os.listdir(src_dir)):
         if not fn.endswith(".rs"):
             continue
